@@ -15,8 +15,18 @@ import (
 	"sync"
 	"time"
 
+	"github.com/bfenetworks/bfe/bfe_balance/backend"
+
 	"verifharness/e2e"
 	"verifharness/vh"
+)
+
+// connection-counter observations (C07: websocket / stream tunnels count against the backend too)
+var (
+	cmu     sync.Mutex
+	cevents []map[string]interface{}
+	cseen   = map[*backend.BfeBackend]bool{}
+	clast   time.Time
 )
 
 type top struct {
@@ -149,6 +159,16 @@ func main() {
 			cases = append(cases, c)
 		}
 	})
+	backend.VerifTracer = func(ev string, b *backend.BfeBackend, avail bool, fail, succ, arg int) {
+		if ev != "inc_conn" && ev != "dec_conn" {
+			return
+		}
+		cmu.Lock()
+		cseen[b] = true
+		clast = time.Now()
+		cevents = append(cevents, map[string]interface{}{"ev": ev[:3], "b": b.Name, "n": arg})
+		cmu.Unlock()
+	}
 	// one raw backend listener; each accepted connection is handed to the case that waits for it
 	ln, err := net.Listen("tcp", "127.0.0.1:0")
 	if err != nil {
@@ -164,14 +184,15 @@ func main() {
 			accepted <- c
 		}
 	}()
-	ws, err := e2e.Start(e2e.Options{Clusters: []e2e.Cluster{{Name: "c", Backends: []string{ln.Addr().String()}}}, TLS: true,
+	dead := e2e.ClosedPort()
+	ws, err := e2e.Start(e2e.Options{Clusters: []e2e.Cluster{{Name: "c", Backends: []string{dead, ln.Addr().String()}}}, TLS: true,
 		NextProtos: []string{"http/1.1"}})
 	if err != nil {
 		vh.Emit(map[string]interface{}{"_fatal": "e2e.Start(ws): " + err.Error()})
 		return
 	}
 	defer ws.Close()
-	st, err := e2e.Start(e2e.Options{Clusters: []e2e.Cluster{{Name: "c", Backends: []string{ln.Addr().String()}}}, TLS: true,
+	st, err := e2e.Start(e2e.Options{Clusters: []e2e.Cluster{{Name: "c", Backends: []string{dead, ln.Addr().String()}}}, TLS: true,
 		NextProtos: []string{"stream", "http/1.1"}})
 	if err != nil {
 		vh.Emit(map[string]interface{}{"_fatal": "e2e.Start(stream): " + err.Error()})
@@ -181,7 +202,42 @@ func main() {
 	rnd := vh.Rand(47)
 	done := 0
 	for _, c := range cases {
+		cmu.Lock()
+		cevents = nil
+		base := map[*backend.BfeBackend]int{}
+		for b := range cseen {
+			base[b] = b.ConnNum()
+		}
+		cmu.Unlock()
 		runCase(c, ws, st, accepted, func(n int) int { return rnd.Intn(n) })
+		// both tunnel ends are closed now: wait until the proxy has let go of the backend
+		dl := time.Now().Add(5 * time.Second)
+		for time.Now().Before(dl) {
+			time.Sleep(40 * time.Millisecond)
+			cmu.Lock()
+			quiet := time.Since(clast) > 400*time.Millisecond
+			zero := true
+			for b := range cseen {
+				if b.ConnNum()-base[b] != 0 {
+					zero = false
+				}
+			}
+			cmu.Unlock()
+			if quiet && zero {
+				break
+			}
+		}
+		cmu.Lock()
+		for _, e := range cevents {
+			e["cid"] = c.ID
+			vh.Emit(map[string]interface{}{"cev": e["ev"], "cid": c.ID, "b": e["b"], "n": e["n"]})
+		}
+		conns := []int{}
+		for b := range cseen {
+			conns = append(conns, b.ConnNum()-base[b])
+		}
+		vh.Emit(map[string]interface{}{"cev": "quiet", "cid": c.ID, "conns": conns, "proto": c.Proto})
+		cmu.Unlock()
 		done++
 	}
 	vh.Emit(map[string]interface{}{"summary": true, "cases": done})
